@@ -38,7 +38,7 @@ def floors(tier):
     strata = ["%s/%s" % (b, d) for b in ("svg", "tikz") for d in TL.DIRECTIONS] + ["scale:linear", "scale:time", "scale:default", "multi-layer", "single-layer",
               "time:datetime-with-time-of-day", "time:date", "time:float", "text:xml", "text:accent", "text:cjk"]
     return {"evaluations": 600, "strata": strata, "events": {"Timeline.__init__": 600, "TimelineSVG.export": 300, "TimelineTex.export": 300, "Force.compute": 600},
-            "distinct_nontrivial": 100, "max_inconclusive_frac": 0.05}
+            "distinct_nontrivial": 100, "max_inconclusive_frac": 0.01}
 
 
 def features(spec, res):
